@@ -1,4 +1,4 @@
-/* C04 / C11 / C13 (+C03, C10, C15 monitors): REP over the real reqrep0/rep.c.
+/* C04 / C11 / C13 (+C03, C10, C15 monitors): RESPONDENT over the real survey0/respond.c (same harness text as rep.c with names swapped).
  * events: A(p) attach
  *         Q(p,nh) a request arrives on pipe p: nh hop words (symbolic, request
  *                 bit clear) + one id word (symbolic, request bit set) + 2 body bytes
@@ -7,9 +7,9 @@
  *         R(i,b) receive  S(i,b) send the reply  T(p,ok)  C(p)  Z
  */
 #include "proto_kit.h"
-#include "sp/protocol/reqrep0/rep.c"
-static rep0_sock sock;
-static rep0_pipe pd[MAXP];
+#include "sp/protocol/survey0/respond.c"
+static resp0_sock sock;
+static resp0_pipe pd[MAXP];
 static int       sock_closed;
 static int       ukind[MAXU], noted[MAXU];
 #define MAXQ 4
@@ -61,14 +61,14 @@ ev_attach(int p)
 	KNEED(!kpipe_up[p] && !sock_closed);
 	if (kstop)
 		return;
-	env_pipe_init(&kpipe[p], 100 + p, REP0_PEER);
+	env_pipe_init(&kpipe[p], 100 + p, NNI_PROTO_SURVEYOR_V0);
 	{
 		static const __typeof__(pd[0]) pd_zero;
 		pd[p] = pd_zero; /* struct assignment keeps field sensitivity, memset does not */
 	}
-	CHECK(rep0_pipe_init(&pd[p], &kpipe[p], &sock) == 0, "pipe_init");
+	CHECK(resp0_pipe_init(&pd[p], &kpipe[p], &sock) == 0, "pipe_init");
 	kpipe_up[p] = 1;
-	CHECK(rep0_pipe_start(&pd[p]) == 0, "pipe_start accepts a REQ peer");
+	CHECK(resp0_pipe_start(&pd[p]) == 0, "pipe_start accepts a SURVEYOR peer");
 	monitor();
 }
 static void
@@ -100,7 +100,7 @@ ev_request(int p, int nh)
 	monitor();
 	WITNESS("request arrived");
 }
-/* G(p,nh): the state rep0_ctx_recv leaves behind for a request with nh hops
+/* G(p,nh): the state resp0_ctx_recv leaves behind for a request with nh hops
  * that arrived on pipe p, constructed directly (the receive step itself is
  * checked by the Q/R skeletons): the inductive interface is
  * (ctx->btrace, ctx->btrace_len, ctx->pipe_id). */
@@ -172,7 +172,7 @@ ev_recv(int i, int blocking)
 	kuaio_prepare(i, blocking);
 	ukind[i] = 2;
 	env_aio_submit(&uaio_at(i));
-	rep0_ctx_recv(&sock.ctx, &uaio_at(i));
+	resp0_ctx_recv(&sock.ctx, &uaio_at(i));
 	if (can)
 		CHECK(KDONE(i) && KRESULT(i) == 0, "C15: receive succeeds at once when a request is waiting");
 	else if (!blocking)
@@ -201,7 +201,7 @@ ev_send(int i, int blocking)
 	umsg[i]->tag = 77 + i;
 	nni_aio_set_msg(&uaio_at(i), umsg[i]);
 	env_aio_submit(&uaio_at(i));
-	rep0_ctx_send(&sock.ctx, &uaio_at(i));
+	resp0_ctx_send(&sock.ctx, &uaio_at(i));
 	kquiesce();
 	if (!pending) {
 		CHECK(KDONE(i) && KRESULT(i) == NNG_ESTATE, "send without a request to answer (or a second reply) fails with ESTATE");
@@ -244,10 +244,10 @@ ev_pipe_lost(int p)
 	KNEED(kpipe_up[p]);
 	if (kstop)
 		return;
-	rep0_pipe_close(&pd[p]);
+	resp0_pipe_close(&pd[p]);
 	kquiesce();
-	rep0_pipe_stop(&pd[p]);
-	rep0_pipe_fini(&pd[p]);
+	resp0_pipe_stop(&pd[p]);
+	resp0_pipe_fini(&pd[p]);
 	kpipe_up[p] = 0;
 	monitor();
 }
@@ -259,14 +259,14 @@ ev_close(void)
 		return;
 	for (int p = 0; p < MAXP; p++)
 		if (kpipe_up[p])
-			rep0_pipe_close(&pd[p]);
-	rep0_sock_close(&sock);
+			resp0_pipe_close(&pd[p]);
+	resp0_sock_close(&sock);
 	sock_closed = 1;
 	kquiesce();
 	for (int p = 0; p < MAXP; p++)
 		if (kpipe_up[p]) {
-			rep0_pipe_stop(&pd[p]);
-			rep0_pipe_fini(&pd[p]);
+			resp0_pipe_stop(&pd[p]);
+			resp0_pipe_fini(&pd[p]);
 			kpipe_up[p] = 0;
 		}
 	kquiesce();
@@ -274,7 +274,7 @@ ev_close(void)
 	for (int i = 0; i < MAXU; i++)
 		if (uaio_used[i])
 			CHECK(KDONE(i), "C10: close completes every pending operation");
-	rep0_sock_fini(&sock);
+	resp0_sock_fini(&sock);
 	CHECK(env_msg_live == 0, "C03: after close and fini every message has been released exactly once");
 	WITNESS("closed");
 }
@@ -293,7 +293,7 @@ ev_close(void)
 void
 harness(void)
 {
-	rep0_sock_init(&sock, NULL);
+	resp0_sock_init(&sock, NULL);
 	monitor();
 	SKEL
 	if (!kstop)
